@@ -102,6 +102,17 @@ theorem openChunks_flatten (b : Buf) (off m : Nat) : (openChunks b off m).1.flat
     by_cases h : off > (scan s).1.flatten.length
     · rw [if_pos h, List.drop_eq_nil_of_le (Nat.le_of_lt h)]; rfl
     · rw [if_neg h]; exact pieces_flatten _ _
+  | clone d s =>
+    simp only [openChunks, content]
+    cases hd : dropChunks ((scan s).1.flatMap (pieces (min m cloneChunk))) off with
+    | none =>
+      have := dropChunks_none _ _ hd
+      rw [flatMap_pieces_flatten] at this
+      simp [List.drop_eq_nil_of_le (Nat.le_of_lt this)]
+    | some cs =>
+      have := (dropChunks_some _ _ _ hd).1
+      rw [flatMap_pieces_flatten] at this
+      simp [this]
 
 /-! ## Event sequences -/
 
@@ -152,6 +163,7 @@ def Good (D : Bytes) : Buf → Prop
   | .error _ => True
   | .chunks d s => d.size = D.length ∧ (scan s).1.flatten <+: D
   | .reader d s => d.size = D.length ∧ (scan s).1.flatten <+: D
+  | .clone d s => d.size = D.length ∧ (scan s).1.flatten <+: D
 
 def GoodH (D : Bytes) (h : List Resp) : Prop := ∀ b, Resp.repl b ∈ h → Good D b
 
@@ -161,6 +173,7 @@ theorem Good.content_prefix {D : Bytes} {b : Buf} (h : Good D b) : content b <+:
   | error e => exact List.nil_prefix
   | chunks d s => exact h.2
   | reader d s => exact h.2
+  | clone d s => exact h.2
 
 theorem GoodH.tail {D : Bytes} {r : Resp} {h : List Resp} (g : GoodH D (r :: h)) : GoodH D h :=
   fun b hb => g b (List.mem_cons_of_mem _ hb)
@@ -174,6 +187,7 @@ def Sealed (d : Digest) (D : Bytes) : Buf → Prop
   | .error _ => True
   | .chunks d' _ => d' = d
   | .reader d' _ => d' = d
+  | .clone d' _ => d' = d
 
 def SealedH (d : Digest) (D : Bytes) (h : List Resp) : Prop := ∀ b, Resp.repl b ∈ h → Sealed d D b
 
@@ -196,6 +210,7 @@ def Own : Buf → Err → Prop
   | .bytes _, e => e.isIntegrity
   | .chunks _ s, e => (scan s).2 = .err e ∨ e.isIntegrity
   | .reader _ s, e => (scan s).2 = .err e ∨ e.isIntegrity
+  | .clone _ s, e => (scan s).2 = .err e ∨ e.isIntegrity
 
 /-- `Chain b h log`: the `OnError` calls `log` are, one each and in order, errors of the buffers in
 use: first `b`, then the replacement the handler answered with; after an answer that is not a
@@ -247,5 +262,8 @@ theorem openChunks_own (b : Buf) (off m : Nat) (e : Err) (h : (openChunks b off 
     by_cases hh : off > (scan s).1.flatten.length
     · rw [if_pos hh] at h; exact Or.inl h
     · rw [if_neg hh] at h; exact Or.inl h
+  | clone d s =>
+    simp only [openChunks] at h
+    cases hd : dropChunks ((scan s).1.flatMap (pieces (min m cloneChunk))) off <;> rw [hd] at h <;> exact Or.inl h
 
 end BB.ErrorHandling
